@@ -56,8 +56,8 @@ pub fn fuzz_plan(prop: &str) -> Vec<(&'static str, usize, u32)> {
         "C07" => vec![("roundtrip", 900, 2)],
         "C08" => vec![("compile", 700, 2), ("compile-asymmetric-flip", 700, 2), ("compile-unrealisable-cuts", 700, 2)],
         "C09" => vec![("programs", 400, 2), ("cyclic", 400, 2), ("arrays", 200, 1)],
-        "C12" => vec![("random-chains", 40, 1), ("flatten", 400, 1), ("general-angles", 60, 1)],
-        "C13" => vec![("polygons-random", 200, 1), ("paths", 60, 1)],
+        "C12" => vec![("random-chains", 40, 1), ("flatten", 400, 1), ("general-angles", 60, 1), ("general-angles-flatten", 60, 1)],
+        "C13" => vec![("polygons-random", 200, 1), ("polygons-large-coordinates", 60, 1), ("paths", 60, 1)],
         "C14" => vec![("raw-proto-raw", 1200, 2), ("proto-raw-proto", 1200, 2)],
         "C15" => vec![("random-doubles", 32 * 8, 1), ("random-reals", 32 * 9, 1), ("records", 40, 1)],
         "C16" => vec![("import", 1500, 4)],
